@@ -106,7 +106,11 @@ func c12Model(r *xrand.Rand, maxTypes, maxDepth int) (*gen.Model, string) {
 		anc[i] = map[int]bool{}
 		bases := pickBases(i, r.Chance(1, 12))
 		sc := &gen.SNode{Kind: "object", AllOf: names(bases)}
-		for k := r.Range(1, 3); k > 0; k-- {
+		nprops := r.Range(1, 3)
+		if len(bases) > 0 && r.Chance(1, 4) {
+			nprops = 0 // a type that only inherits: {} // {allOf: …}
+		}
+		for k := nprops; k > 0; k-- {
 			sc.Props = append(sc.Props, prop(fmt.Sprintf("t%d", i)))
 		}
 		if r.Chance(1, 4) && i > 0 { // a nested object with its own allOf
@@ -160,6 +164,15 @@ func c12Model(r *xrand.Rand, maxTypes, maxDepth int) (*gen.Model, string) {
 		if r.Bool() {
 			me.Query = &gen.Query{Schema: host("q")}
 			hosts += "query "
+		}
+		// responses before the one with allOf whose bodies are not JSight schemas
+		for k := r.Intn(3); k > 0; k-- {
+			form := []string{"any", "empty", "regex"}[r.Intn(3)]
+			b := gen.Body{Form: form}
+			if form == "regex" {
+				b.Regex = "ab+"
+			}
+			me.Responses = append(me.Responses, &gen.Response{Code: []string{"201", "204", "301"}[r.Intn(3)], Body: b})
 		}
 		rs := &gen.Response{Code: "200", Body: gen.Body{Form: "schema", Schema: host("rs"), AsChild: r.Bool()}}
 		hosts += "response "
